@@ -382,6 +382,23 @@ def r4_calls(run, F):
            "every argument type is compared with its parameter type by `!=`; a difference is ArgumentTypeMismatch (or the missing-address hint)")
     zips = [c for c in hirq.calls(b["hir"]) if c.get("k") == "MethodCall" and c.get("name") == "zip"]
     run.ob("R4-ARGUMENT-TYPES", "all arguments", len(zips) == 1, F.where(b), "parameters.iter().zip(arguments.iter())")
+    # a diagnosed mismatch ends the check: once ArgumentTypeMismatch / ArgumentMissingAddress has been built for one pair, no further
+    # pair is examined (a result carried round the loop would be overwritten by the next matching pair: only a mismatch in the last
+    # argument would survive).  MIR: from the block that builds the error, the iterator's next() is unreachable.
+    cfg = mirq.CFG(b)
+    nexts = {i for i, t in cfg.calls() if (mirq.call_target(t) or "").endswith("Iterator>::next") or (mirq.call_target(t) or "").endswith("Iterator::next")}
+    built = []
+    for i in sorted(cfg.reach):
+        for st in cfg.blocks[i]["s"]:
+            r = st["r"]
+            if r.get("k") == "Agg" and str(r.get("adt", "")).endswith("error::Error") and r.get("variant") in ("ArgumentTypeMismatch", "ArgumentMissingAddress"):
+                built.append((i, r.get("variant")))
+    for i, v in built:
+        again = nexts & cfg.reachable_from(cfg.succ[i])
+        run.ob("R4-ARGUMENT-TYPES", "%s ends the check" % v, not again, F.where(b),
+               "after %s has been built for one argument the remaining pairs are still examined: the diagnosis can be overwritten" % v)
+    if nexts:
+        run.ob("R4-ARGUMENT-TYPES", "mismatch errors built in the loop", len(built) >= 2, F.where(b), "%d error constructions found on the MIR" % len(built))
     # both call forms route through use_function
     for fn, variant in (("<alpha::common::Statement as alpha::analyzer::function_calls::Analyzable>::analyze", "Statement::MethodCall"),
                         ("<alpha::common::Expression as alpha::analyzer::function_calls::Analyzable>::analyze", "Expression::FunctionCall")):
